@@ -29,9 +29,10 @@ RegeneratedPdf(pre, w, l) == (w.csv \/ w.tex \/ pre.pdf.a) => l.pdf
 RegeneratedPng(pre, l) == (l.pdf \/ pre.png.a) => l.png
 
 \* output.changed of the yielded value: true whenever a file's content changed, and it stays true
-\* downstream (so every later artefact is redone); a value for which nothing was done is not "changed"
-ChangedFlag(ch, w, l) == /\ (w.csv \/ w.tex \/ l.pdf \/ l.png) => ch = "T"
-                         /\ ch = "T" => l.png
+\* downstream (so every later artefact is redone)
+ChangedFlag(ch, w, l) == (w.csv \/ w.tex \/ l.pdf \/ l.png) => ch = "T"
+\* (model only - the statement does not ask for it) a value for which nothing was done is not "changed"
+ChangedExact(ch, w, l) == ch = "T" => l.png
 
 \* a run whose inputs are unchanged rewrites no file and launches no converter
 Nothing(w, l) == ~w.csv /\ ~w.tex /\ ~l.pdf /\ ~l.png
